@@ -25,7 +25,7 @@ TRUSTED_BASE = [
     "wake-up of a task waiting for credits and scheduler fairness are outside the model (checked only by the harness's quiescence detector)",
     "non-interference is proved on a two-port model sharing only the bounded event queue (Link/Shared.lean); the transport queues and the wire are FIFOs drained by the dispatcher helper tasks",
 ]
-ASSUMPTIONS = ["single-threaded paused runtime: sleep(1ns) returns at quiescence", "the receiving application keeps calling recv (credits queued behind a full event queue are flushed by the next receive call)"]
+ASSUMPTIONS = ["single-threaded paused runtime: sleep(1ns) returns at quiescence", "no_credit_leak is proved for receivers that drain a chunked message with recv_chunk; a receiver that calls recv_any again instead is exercised by the correspondence run (`recvskip`), outside the LTS", "the receiving application keeps calling recv (credits queued behind a full event queue are flushed by the next receive call)"]
 LEVEL_TEXT = ("Lean 4 theorems over M_link: the return threshold always leaves >= 4 credits reachable (all buffers >= 4), in every "
               "reachable quiescent state with the receiver drained and the port open no send/connect is pending (after any history "
               "of cancels), every emitted frame strictly decreases what remains (no livelock; port batches never empty), credit "
